@@ -460,6 +460,9 @@ func runC02(c *Ctx) {
 							// into the slice it returns, and every caller hands that slice to a sort
 							good, reason = true, "collects into its result only; every caller passes the result to a function that sorts it before returning"
 						}
+						if !good && pruneOnlyRange(x) {
+							good, reason = true, "the loop only deletes entries of the map it ranges over: the outcome does not depend on the order"
+						}
 						if !good {
 							bad++
 						}
@@ -1084,4 +1087,39 @@ func resolveConstArg(p *Program, fn *ssa.Function, param string, from *ssa.Funct
 		val = at.Sym
 	}
 	return val, val != ""
+}
+
+// pruneOnlyRange: the body of a range over a map does nothing but test the entry and delete
+// entries of that same map — whatever the iteration order, the same entries are gone afterwards.
+func pruneOnlyRange(r *ssa.Range) bool {
+	fn := r.Parent()
+	var li *loopInfo
+	for _, l := range naturalLoops(fn) {
+		for _, in := range l.Header.Instrs {
+			if nx, ok := in.(*ssa.Next); ok && nx.Iter == ssa.Value(r) {
+				li = l
+			}
+		}
+	}
+	if li == nil {
+		return false
+	}
+	for b := range li.Blocks {
+		for _, in := range b.Instrs {
+			switch x := in.(type) {
+			case *ssa.Next, *ssa.Extract, *ssa.BinOp, *ssa.If, *ssa.Jump, *ssa.Phi, *ssa.UnOp, *ssa.FieldAddr, *ssa.Field, *ssa.Lookup, *ssa.DebugRef, *ssa.Convert, *ssa.ChangeType, *ssa.IndexAddr, *ssa.Index:
+			case *ssa.Call:
+				if CalleeName(x.Common()) != "builtin:delete" || len(x.Common().Args) == 0 || valueRoot(x.Common().Args[0]) != valueRoot(r.X) {
+					// the map may be loaded again from the same field for the delete
+					if CalleeName(x.Common()) == "builtin:delete" && len(x.Common().Args) > 0 && T(x.Common().Args[0]).String() == T(r.X).String() {
+						continue
+					}
+					return false
+				}
+			default:
+				return false
+			}
+		}
+	}
+	return true
 }
